@@ -67,7 +67,8 @@ func (verifErr) Error() string { return "verif" }
 // NewSubConn fails on an empty address list, as real gRPC 1.56 does (balancer_conn_wrappers.go),
 // or when the persistent flag failNew is set (failing connection factory).
 func (c *verifCC) NewSubConn(a []resolver.Address, o balancer.NewSubConnOptions) (balancer.SubConn, error) {
-	if len(a) == 0 || c.failNew {
+	if len(a) == 0 || c.failNew || c.nextFresh >= len(c.fresh) {
+		// (the last case is the bound of the universe: no more than len(fresh) creations per harness run)
 		return nil, verifErr{}
 	}
 	s := c.fresh[c.nextFresh]
